@@ -217,7 +217,8 @@ static json ObsOf(const RSForm& f) {
       {"conv", rs.convention}, {"term", f.GetText(uid).term.Text().Raw()}, {"text", f.GetText(uid).definition.Raw()},
       {"ok", p.status == semantic::ParsingStatus::VERIFIED},
       {"type", p.exprType.has_value() ? (std::holds_alternative<rslang::LogicT>(*p.exprType) ? std::string("LOGIC") : AsciiType(std::get<rslang::Typification>(*p.exprType).ToString())) : std::string{}},
-      {"args", args}, {"deps", deps} }); }
+      {"args", args}, {"deps", deps},
+      {"vc", p.valueClass == rslang::ValueClass::value ? "value" : p.valueClass == rslang::ValueClass::props ? "props" : "invalid"} }); }
   // clause (ii) of C07 / C10: everything the schema reports equals what a copy reloaded from the saved document reports
   bool same = true;
   try { auto copy = LoadForm(Save(f)); json a = Project(f), b = Project(*copy);
